@@ -86,7 +86,53 @@ def hazards_of(parsed, ints):
         hz.add("two_variables_one_flattened_name")
     if written_sc & read_sc:
         hz.add("scalar_reduced_and_read")
+    # stencil extents (role "e")
+    iargs, extents = set(), []
+    for kc in parsed["calls"]:
+        for a, r in zip(kc["args"], I.roles_of(kc["kern"])):
+            res = I.resolve(a, ints)
+            if res[0] != "var":
+                continue
+            norm = re.sub(r"\s+", "", a).lower()
+            if r == "e":
+                extents.append(norm)
+            elif r in "ir":
+                iargs.add(norm)
+    for e in extents:
+        if "%" in e:
+            hz.add("stencil_extent_is_structure_component")
+        if "(" in e:
+            hz.add("stencil_extent_is_array_element")
+        if e in iargs:
+            hz.add("stencil_extent_text_is_also_a_kernel_argument")
     return sorted(hz)
+
+
+DANGEROUS = ("stencil_extent_is_structure_component",
+             "stencil_extent_is_array_element",
+             "stencil_extent_text_is_also_a_kernel_argument",
+             "invoke_label_equals_generated_routine_name")
+
+
+def label_clashes(parsed_list):
+    """routine names that the naming rule of the user guide gives to two
+    invokes of the program: a label `invoke_<k>...` chosen by the user
+    equals the generated name of an unnamed invoke"""
+    names = []
+    for k, p in enumerate(parsed_list):
+        if p["name"]:
+            lab = p["name"].lower()
+            names.append(lab if lab.startswith("invoke_") else "invoke_" + lab)
+        else:
+            names.append(G.generated_name(k, [c["kern"] for c in p["calls"]]))
+    return sorted({n for n in names if names.count(n) > 1})
+
+
+def mechanism(hz):
+    """the dangerous hazard classes if any is present (the generator plants
+    at most one class per program), else the benign facts"""
+    d = [h for h in hz if h in DANGEROUS]
+    return "+".join(sorted(d)) if d else ("+".join(sorted(hz)) or "none")
 
 
 # --------------------------------------------------------------- build steps
@@ -261,6 +307,17 @@ def run_program(part, desc, cfg, env):
                            else "kernel_calls:builtin")
         for f in desc.get("forms", []):
             part.count("programs_with_form:" + f)
+        clashes = label_clashes(parsed)
+        prog_hz = set()
+        for p, ia in zip(parsed, ints_at):
+            prog_hz |= set(hazards_of(p, ia))
+        if clashes:
+            prog_hz.add("invoke_label_equals_generated_routine_name")
+        if [h for h in prog_hz if h in DANGEROUS]:
+            part.count("programs_with_a_planted_dangerous_form")
+            for h in prog_hz:
+                if h in DANGEROUS:
+                    part.count("programs_with_dangerous_form:" + h)
         # ------------------------------------------------------- generation
         try:
             alg, psy = lfric.generate(x90, env["kdir"], bool(cfg["dm"]),
@@ -271,11 +328,8 @@ def run_program(part, desc, cfg, env):
         except lfric.HarnessError as err:
             part.count("psyclone_refused")
             part.count("refused: " + _refusal_class(str(err)))
-            hz = set()
-            for p, ia in zip(parsed, ints_at):
-                hz |= set(hazards_of(p, ia))
-            if "same_field_twice_in_one_kernel_call" not in hz and \
-                    "more than once" in str(err):
+            if "same_text_twice_in_kernel_call" not in desc.get(
+                    "forms", []) and "more than once" in str(err):
                 part.count("refused_as_duplicate_although_texts_differ")
             part.case(key=key, nontrivial=False)
             return
@@ -316,6 +370,27 @@ def run_program(part, desc, cfg, env):
                         want = p["name"].lower()
                     if cl[0] != want:
                         part.count("named_invoke_routine_name_unexpected")
+                hz = hazards_of(p, ints_at[k])
+                if cl[0] in clashes:
+                    hz = sorted(set(hz) | {
+                        "invoke_label_equals_generated_routine_name"})
+                if routines[cl[0]]["copies"] > 1:
+                    static_bad = True
+                    part.violation(dict(witness_base, **{
+                        "kind": "psy_routines_share_one_name",
+                        "mechanism": mechanism(hz),
+                        "what": "the PSy layer contains %d routines called "
+                                "%s; generated calls: %s [%s]; invokes: %s"
+                                % (routines[cl[0]]["copies"], cl[0],
+                                   "; ".join("CALL %s(%s)" % (c[0], ", ".join(
+                                       a.strip() for a in c[1]))
+                                       for c in calls if c[0] == cl[0]),
+                                   cname, " | ".join(
+                                       _short(t, 150) for t, c in
+                                       zip(invokes, calls) if c[0] == cl[0])),
+                        "hazards": hz,
+                        "dedupe": ["sharedname", hz]}))
+                    continue
                 try:
                     probs, stats = I.static_check(invokes[k], ints_at[k], cl,
                                                   routines[cl[0]])
@@ -327,12 +402,11 @@ def run_program(part, desc, cfg, env):
                            stats["actuals"])
                 part.count("static_kernel_arguments_mapped",
                            stats["kernel_args_mapped"])
-                hz = hazards_of(p, ints_at[k])
                 for kind, msg in probs:
                     static_bad = True
                     part.violation(dict(witness_base, **{
                         "kind": kind,
-                        "mechanism": "+".join(hz) or "none",
+                        "mechanism": mechanism(hz),
                         "what": "%s [%s]; invoke: %s" % (
                             msg, cname, _short(invokes[k], 300)),
                         "invoke": invokes[k], "hazards": hz,
@@ -350,15 +424,19 @@ def run_program(part, desc, cfg, env):
             part.case(key=key, nontrivial=False)
             return
         if rc != 0:
-            # the PSy module alone is not valid Fortran: not a statement
-            # about the call/routine agreement; counted, reported separately
-            part.count("psy_layer_alone_does_not_compile_not_judged")
-            hz = set()
-            for p, ia in zip(parsed, ints_at):
-                hz |= set(hazards_of(p, ia))
             first = [l for l in err.splitlines() if "Error:" in l][:1]
-            part.count("psy_alone[%s]: %s" % (
-                "+".join(sorted(hz)) or "none", _short(" ".join(first), 120)))
+            if static_bad:
+                # the static monitor has already reported why (duplicate
+                # dummy argument / two routines of one name)
+                part.count("psy_layer_alone_does_not_compile_after_static_"
+                           "violation")
+            else:
+                # the PSy module alone is not valid Fortran for a reason
+                # that is not the call/routine agreement: counted only
+                part.count("psy_layer_alone_does_not_compile_not_judged")
+                part.count("psy_alone[%s]: %s" % (
+                    "+".join(sorted(prog_hz)) or "none",
+                    _short(" ".join(first), 120)))
             part.case(key=key, nontrivial=False)
             return
         rc, _, err = _run(["gfortran"] + FFLAGS + inc + ["-c", "alg.f90"], rd)
@@ -376,20 +454,17 @@ def run_program(part, desc, cfg, env):
                                   "does not compile: " + _short(err2, 300))
                 part.case(key=key, nontrivial=False)
                 return
-            hz = set()
-            for p, ia in zip(parsed, ints_at):
-                hz |= set(hazards_of(p, ia))
+            hz = prog_hz
             part.count("alg_psy_compile_failures")
             part.violation(dict(witness_base, **{
                 "kind": "alg_psy_do_not_compile_together",
-                "mechanism": "+".join(sorted(hz)) or "none",
+                "mechanism": mechanism(hz),
                 "what": "the generated algorithm layer does not compile "
                         "against the generated PSy module (%s) although the "
                         "same program without its invokes compiles: %s" % (
                             cname, _short(err, 600)),
                 "stderr": err[-3000:], "hazards": sorted(hz),
-                "dedupe": ["together", sorted(hz),
-                           _short(re.sub(r"\d+", "N", err), 80)]}))
+                "dedupe": ["together", sorted(hz)]}))
             part.case(key=key, nontrivial=False)
             return
         part.count("programs_compiled")
@@ -458,10 +533,15 @@ def evaluate(part, desc, cfg, dump, parsed, ints_at, witness_base, nmut):
         return fields, reals, ints_
     try:
         fields, reals, ints_ = load("d0")
-        mult = [int(v) for v in
-                dump["dumps"]["d0"]["fields"]["mult_w0"]["data"][:ncmp["W0"]]]
-    except (I.TextError, KeyError) as err:
+        d0 = dump["dumps"]["d0"]["fields"]
+        mult = [int(v) for v in d0["mult_w0"]["data"][:ncmp["W0"]]]
+        ssz = {e: [int(v) for v in d0["ssz%d" % e]["data"][:ncmp["W3"]]]
+               for e in (1, 2)}
+    except (I.TextError, KeyError, TypeError) as err:
         part.inconclusive("harness: initial dump unusable: %s" % err)
+        return 0
+    if any(v < 1 for e in ssz for v in ssz[e]):
+        part.inconclusive("harness: a compared W3 DoF has no stencil size")
         return 0
     if any(m < 1 for m in mult):
         part.inconclusive("harness: a compared W0 DoF belongs to no cell")
@@ -478,7 +558,7 @@ def evaluate(part, desc, cfg, dump, parsed, ints_at, witness_base, nmut):
     compared = 0
     for k, p in enumerate(parsed):
         text = [s["invoke"] for s in desc["steps"] if "invoke" in s][k]
-        state = I.State(fields, reals, ints_, ints_at[k], mult)
+        state = I.State(fields, reals, ints_, ints_at[k], mult, ssz)
         # reductions: owned DoFs with dm, every DoF without
         try:
             # nred is per space; a reduction uses the space of its field
@@ -534,7 +614,7 @@ def evaluate(part, desc, cfg, dump, parsed, ints_at, witness_base, nmut):
             part.count("data_mismatches")
             part.violation(dict(witness_base, **{
                 "kind": "final_data_differs_from_invoke_text",
-                "mechanism": "+".join(hz) or "none",
+                "mechanism": mechanism(hz),
                 "what": "after invoke %d of %s (%s): %s; invoke text: %s" % (
                     k + 1, desc["name"], cname, bad[0], _short(text, 400)),
                 "invoke": text, "variable": bad[1], "hazards": hz,
@@ -607,7 +687,42 @@ def anchors():
                              "b), &\n   sum_X(a, g1), &\n"
                              "   X_minus_Y(cols(1)%g, state%g, ga(1)))"),
                         _inv("call invoke(a_plus_X(g3, a, cell))")]})
+    A.append({"name": "c24_anchor_stencil",
+              "forms": ["stencil_extent", "literal", "named_invoke"],
+              "steps": [_inv("call invoke(c24_sten_w3_type(f1, f2, e2, n), &\n"
+                             "   c24_sten_w3_type(f3, f1, 1, state%e), &\n"
+                             "   c24_sten_w3_type(fa(1), F2, E2, 2_i_def), "
+                             "&\n   name='stencils')"),
+                        _inv("call invoke(c24_sten_w3_type(state%f, f3, e1, "
+                             "ea(2)))")]})
     return A
+
+
+def danger_anchors():
+    """one minimal program per argument form that the pinned PSyclone is
+    known (by this check) to mishandle; their hazard-free twin is
+    c24_anchor_stencil / c24_anchor_plain"""
+    D = []
+    D.append({"name": "c24_danger_extent_struct",
+              "forms": ["stencil_extent_struct"], "danger": "extent_struct",
+              "steps": [_inv("call invoke(c24_sten_w3_type(f1, f2, state%e, "
+                             "n))")]})
+    D.append({"name": "c24_danger_extent_array",
+              "forms": ["stencil_extent_array"], "danger": "extent_array",
+              "steps": [_inv("call invoke(c24_sten_w3_type(f1, f2, ea(2), "
+                             "n))")]})
+    D.append({"name": "c24_danger_extent_dup",
+              "forms": ["stencil_extent_dup"], "danger": "extent_dup",
+              "steps": [_inv("call invoke(c24_sten_w3_type(f1, f2, e2, "
+                             "e2))")]})
+    D.append({"name": "c24_danger_label",
+              "forms": ["label_equals_generated_name"],
+              "danger": "label_clash",
+              "steps": [_inv("call invoke(setval_c(f1, 1.0_r_def), "
+                             "setval_c(f2, 2.0_r_def))"),
+                        _inv("call invoke(setval_c(f3, a), "
+                             "name=\"invoke_0\")")]})
+    return D
 
 
 # ----------------------------------------------------------------------- main
@@ -652,6 +767,14 @@ def main(ctx):
                 d["ranks"] = cfgs[ci]["ranks"]
                 progs.append(d)
             jobs.append({"cfg": cfgs[ci], "programs": progs, "env": env})
+    dan = danger_anchors()
+    for a0 in range(0, len(dan), 2):
+        progs = []
+        for a in dan[a0:a0 + 2]:
+            d = dict(a)
+            d["ranks"] = cfgs[a0 // 2]["ranks"]
+            progs.append(d)
+        jobs.append({"cfg": cfgs[a0 // 2], "programs": progs, "env": env})
     k = 0
     while k < nprog:
         ji = len(jobs)
@@ -660,8 +783,12 @@ def main(ctx):
         for _ in range(min(per_job, nprog - k)):
             rnd = random.Random(ctx.rng("prog", k).random())
             style = "plain" if k % 11 == 10 else None
+            # one program in nine carries ONE planted dangerous form
+            danger = G.DANGEROUS[(k // 9) % len(G.DANGEROUS)] \
+                if (k % 9 == 4 and style is None) else None
             d = G.random_program(rnd, name="c24_p%04d" % k,
-                                 ranks=cfg["ranks"], style=style)
+                                 ranks=cfg["ranks"], style=style,
+                                 danger=danger)
             progs.append(d)
             k += 1
         jobs.append({"cfg": cfg, "programs": progs, "env": env})
